@@ -54,11 +54,14 @@ def is_plain(n):
 
 
 # ---------------------------------------------------------------------------------------------- abstract netlist
-def gen_netlist(rng, lib, bench_only=False, p_esc=0.15, p_const=0.08, max_gates=14, allow_onebit_nz=True):
-    """returns nl (JSON-able).  bench_only: use only families the bench format can express."""
+def gen_netlist(rng, lib, bench_only=False, p_esc=0.15, p_const=0.08, max_gates=14, allow_onebit_nz=True, p_wide=0.0):
+    """returns nl (JSON-able).  bench_only: use only families the bench format can express.  p_wide: probability that a gate is a
+    WIDE one (5..9 inputs, `cells.WIDE`; libraries BENCH and PRIM only) — outside the arity domain of the theorems (finding D33)."""
     entries = [e for e in cells.LIBS[lib] if e['kinds']]
     if bench_only:
         entries = [e for e in entries if e['fam'] in cells.BENCH_KINDS]
+    wide = [e for e in entries if cells.is_wide(e['fam'])]
+    entries = [e for e in entries if not cells.is_wide(e['fam'])]
     comb = [e for e in entries if not cells.is_seq(e['fam']) and e['ins']]
     consts = [e for e in entries if not e['ins']]
     seqs = [e for e in entries if cells.is_seq(e['fam'])]
@@ -179,6 +182,7 @@ def gen_netlist(rng, lib, bench_only=False, p_esc=0.15, p_const=0.08, max_gates=
         else:
             e = rng.choice(consts) if (consts and r < 0.27) else rng.choice(comb)
             if len(e['ins']) > 4 and rng.random() < 0.5: e = rng.choice(comb)
+            if wide and p_wide and rng.random() < p_wide: e = rng.choice(wide)
             inst = names.fresh('u')
             args = [pick_src() for _ in e['ins']]
             res = []
@@ -233,6 +237,18 @@ def evaluate(nl, pi_vals, ff_vals):
     po = {b: val(b) for b in nl['po']}
     ff = {g['inst']: cells.SEQ[g['fam']][1]([val(a) for a in g['args']]) for g in gates if cells.is_seq(g['fam'])}
     return po, ff
+
+
+def has_wide(nl):
+    return any(cells.is_wide(g['fam']) for g in nl['gates'])
+
+
+def narrowed(nl):
+    """the netlist kyupy SIMULATES (finding D33): every wide gate replaced by the 4-input primitive of its first four pins"""
+    out = dict(nl)
+    out['gates'] = [dict(g, fam=cells.narrow(g['fam']), args=g['args'][:4], pins_in=g['pins_in'][:4]) if cells.is_wide(g['fam']) else g
+                    for g in nl['gates']]
+    return out
 
 
 def ff_insts(nl):
